@@ -14,7 +14,7 @@ CHECKS = {
          "Same exhaustive state graph as C01; after every transition the result of every deletion (incl. failing position of batches), Entities::is_alive for every handle ever returned, World::is_alive (documented weaker form) and the items of the entities join / lend_join are compared with a boring timeline model.",
          "DESIGN.md §4 C02"),
  "C03": ("mc-hist", "explicit-state BFS over real World histories (alphabet E2) with stale-handle probe battery",
-         "All states within depth 6/8 and 4/5 creations over six storage-kind triples (all 18 kinds); in every state every handle ever returned (live, dead, dead with index reused) is pushed through ~35 handle-taking access paths per storage; dead handles must behave as absent and leave all storages equal to the model.",
+         "All states within depth 6/8 and 4/5 creations over six storage-kind triples (all 18 kinds); in every state every handle ever returned (live, dead, dead with index reused) is pushed through ~35 handle-taking access paths per storage; dead handles must behave as absent, leave all storages equal to the model and leave no event in the channel of a change-tracking storage.",
          "DESIGN.md §4 C03"),
  "C05": ("mc-hist", "explicit-state BFS over real World histories (alphabet E2), component-map oracle",
          "All states within depth 6/8 and 4/5 creations, three storages per world rotated over all kinds and all registration paths (register, register_with_storage, ReadStorage/WriteStorage::setup, Dispatcher::setup, two paths at once); after every transition every storage must hold exactly the model's components (death purges everywhere, survivors untouched, reused index empty).",
@@ -41,7 +41,7 @@ CHECKS = {
          "For each of the 18 storage kinds, every content subset of a universe straddling every layer boundary of the hierarchical bit set (0,1,63,64,4095,4096,262143,262144; entities alive, awaiting maintain, pending deletion, dead, dead-and-reused) paired with every subset as a partner bit set: sequential, lending and tuple joins in both member positions, negated, optional, restricted, mutable (marker written through every item, then every direct lookup checked), entries, drain; lookup by entity / by index through the lending iterator for live, dead and stale handles; bit-set combinators and the entities resource; mixed triples; tuple arities 1..16 with every member being the deciding one; compact universes in every insertion order (dense tables permuted).",
          "DESIGN.md §4 C06"),
  "C07": ("mc-join", "exhaustive enumeration of every split-decision tree of the real JoinProducer (hook H5) per membership assignment",
-         "For every storage kind, content subset and partner bit set over the boundary universe: every tree of split/fold decisions that rayon's bridge can take is driven over the real JoinProducer::split / fold_with; the union of the leaves' items must equal the sequential join's items (none missing, none twice), for shared, mutable, restricted, negated, optional and entities members; mutations made by leaves must be visible afterwards on exactly the yielded entities.",
+         "For every storage kind, content subset and partner bit set over the boundary universe: every tree of split/fold decisions that rayon's bridge can take is driven over the real JoinProducer::split / fold_with; the union of the leaves' items must equal the sequential join's items (none missing, none twice), for shared, mutable, restricted, negated, optional and entities members; mutations made by leaves must be visible afterwards on exactly the yielded entities. In addition the public par_join() iterator (drive_unindexed + rayon's bridge, which the split-tree driver bypasses) is run on real pools of 1/3/8 (thorough: 1/2/3/8/64) threads over every content x partner mask and compared with the sequential join.",
          "DESIGN.md §4 C07"),
  "C13": ("mc-join", "exhaustive shape enumeration over restricted storages: content subset x subset of items fetched mutably x other-entity handle",
          "For every storage kind, every content subset of the boundary universe and every subset of items chosen for get_mut: restricted shared / exclusive (lending) / shared-write (non-lending) joins visit exactly the members with values equal to direct lookups, markers appear on exactly the chosen entities, membership is unchanged, other-entity lookups (live with/without component, awaiting maintain, dead, stale-reused) follow the storage's own rule, tracked storages emit Modified for exactly the chosen items; parallel restricted joins: every split tree.",
